@@ -87,31 +87,33 @@ type judged struct {
 }
 
 type output struct {
-	Behaviours  int            `json:"behaviours"`
-	Steps       int            `json:"steps"`
-	Checked     int            `json:"checked_steps"`
-	TextQueries int            `json:"text_queries"`    // FindIDsByTextSearch calls judged
-	TextNonTriv int            `json:"text_nontrivial"` // ... with a non-empty candidate set
-	Scores      int            `json:"scores"`          // BM25 scores compared
-	Multi       int            `json:"scores_multi"`    // ... of queries with >= 2 terms matching >= 2 documents
-	Fusion      int            `json:"fusion_searches"` // VSearch / VSearchGraph calls judged
-	Alpha0      int            `json:"alpha0"`
-	Alpha1      int            `json:"alpha1"`
-	AlphaHalf   int            `json:"alpha_half"`
-	FusedScores int            `json:"fused_scores"` // fused scores compared at alpha = 1/2 (and 0, 1)
-	TextOnly    int            `json:"text_only"`
-	Contains    int            `json:"contains_form"`
-	Filtered    int            `json:"filtered"`
-	SmallK      int            `json:"small_k"`
-	Ties        int            `json:"ties"` // judged lists in which two documents tie
-	Paths       map[string]int `json:"paths"`
-	Ops         map[string]int `json:"ops"`
-	StaleProbe  int            `json:"after_overwrite_or_delete"` // checked steps whose history holds an overwrite or a delete
-	DivTotal    int            `json:"div_total"`
-	Divergences []divergence   `json:"divergences"`
-	Traces      []judged       `json:"traces"`
-	Errors      []string       `json:"errors"`
-	Binding     string         `json:"-"`
+	Behaviours        int            `json:"behaviours"`
+	Steps             int            `json:"steps"`
+	Checked           int            `json:"checked_steps"`
+	TextQueries       int            `json:"text_queries"`    // FindIDsByTextSearch calls judged
+	TextNonTriv       int            `json:"text_nontrivial"` // ... with a non-empty candidate set
+	Scores            int            `json:"scores"`          // BM25 scores compared
+	Multi             int            `json:"scores_multi"`    // ... of queries with >= 2 terms matching >= 2 documents
+	Fusion            int            `json:"fusion_searches"` // VSearch / VSearchGraph calls judged
+	Alpha0            int            `json:"alpha0"`
+	Alpha1            int            `json:"alpha1"`
+	AlphaHalf         int            `json:"alpha_half"`
+	FusedScores       int            `json:"fused_scores"` // fused scores compared at alpha = 1/2 (and 0, 1)
+	TextOnly          int            `json:"text_only"`
+	Contains          int            `json:"contains_form"`
+	Filtered          int            `json:"filtered"`
+	SmallK            int            `json:"small_k"`
+	HalfSmallK        int            `json:"alpha_half_small_k_measured"`             // alpha = 1/2 with k < live documents: not judged ...
+	HalfSmallKDiffers int            `json:"alpha_half_small_k_differs_from_formula"` // ... result is not the formula's top-k
+	Ties              int            `json:"ties"`                                    // judged lists in which two documents tie
+	Paths             map[string]int `json:"paths"`
+	Ops               map[string]int `json:"ops"`
+	StaleProbe        int            `json:"after_overwrite_or_delete"` // checked steps whose history holds an overwrite or a delete
+	DivTotal          int            `json:"div_total"`
+	Divergences       []divergence   `json:"divergences"`
+	Traces            []judged       `json:"traces"`
+	Errors            []string       `json:"errors"`
+	Binding           string         `json:"-"`
 }
 
 // ------------------------------------------------------------------ refinement of terms into words
@@ -261,8 +263,9 @@ func (b *binding) queryText(q int) string {
 const bm25k1, bm25b = 1.2, 0.75
 
 // bm25 evaluates, on the specification's integers, the variant documented in calculateBM25TermScore:
-//   idf(t) = ln(1 + (N - df + 0.5) / (df + 0.5))          (Lucene's non-negative idf)
-//   score  = SUM_{t in q} idf(t) * tf * (k1 + 1) / (tf + k1 * (1 - b + b * len / (total / N)))
+//
+//	idf(t) = ln(1 + (N - df + 0.5) / (df + 0.5))          (Lucene's non-negative idf)
+//	score  = SUM_{t in q} idf(t) * tf * (k1 + 1) / (tf + k1 * (1 - b + b * len / (total / N)))
 func bm25(o *obsRec, q int, d int) float64 { // d 0-based
 	if o.N == 0 || o.Total == 0 || o.Len[d] < 0 {
 		return 0
